@@ -27,6 +27,15 @@ THEOREMS = {n: "Props.C16" for n in [
     "C16_1d_undersampled_first", "C16_1d_batch_equals_incremental",
     "C16_1d_batch_known_seed_refuted", "C16_1d_tell_many_expands"]}
 
+# Coq's primitive machine floats / integers show up under Print Assumptions of the one
+# theorem whose witness is computed in IEEE doubles (C16_1d_batch_known_seed_refuted);
+# they are part of the kernel (trusted base line "primitive ints and floats"), not axioms
+PRIMS = {f"PrimFloat.{n}" for n in ("float", "add", "sub", "mul", "div", "sqrt", "opp", "abs", "eqb", "ltb", "leb",
+                                    "of_uint63", "is_nan", "is_infinity", "classify", "compare", "normfr_mantissa",
+                                    "frshiftexp", "ldshiftexp", "next_up", "next_down")} | \
+        {f"PrimInt63.{n}" for n in ("int", "add", "sub", "mul", "lsl", "lsr", "lor", "land", "lxor", "eqb", "ltb", "leb",
+                                    "div", "mod", "compare", "head0", "tail0")}
+
 SIG_F11 = "C16:F11 AverageLearner.loss(real=False) ZeroDivisionError with pending points and no data"
 SIG_F13 = "C16:F13 AverageLearner1D.tell_many_at_point counts a seed already known at x twice and overwrites its sample"
 
@@ -764,7 +773,7 @@ def jsonable_ops(steps):
 
 def run(chk: Check) -> int:
     chk.prove(["theories/Props/C16.vo", "theories/Run/AvgRun.vo"], THEOREMS,
-              allowed_axioms=frozenset(STD_AXIOMS_OK))
+              allowed_axioms=frozenset(STD_AXIOMS_OK | PRIMS))
     quick = chk.quick
     guard, dedup = probe_guard(), probe_dedup()
     chk.log(f"implementation probes: F11 repaired={guard}  F13 repaired={dedup}")
